@@ -19,6 +19,30 @@ void* tzr_load(const char* bytes, std::size_t n) {
   if (!z->Load(&src)) { delete z; return nullptr; }
   return z;
 }
+// the same table built directly (for offsets of exactly +-24h, which only ResetToBuiltinUTC produces and Load rejects): the fields
+// Load's tail would compute are computed the same way (LocalTime per transition, civil_max/civil_min per type)
+void* tzr_build(int n, const long long* unix_times, const unsigned char* types, int t, const long long* offs, const unsigned char* dsts,
+                const unsigned char* abbrs, int dflt, const char* chars, int nchars) {
+  auto* z = new cctz::TimeZoneInfo;
+  z->transition_types_.resize(t);
+  for (int i = 0; i < t; i++) { auto& tt = z->transition_types_[i]; tt.utc_offset = static_cast<std::int_least32_t>(offs[i]); tt.is_dst = dsts[i] != 0; tt.abbr_index = abbrs[i]; }
+  z->transitions_.resize(n);
+  for (int i = 0; i < n; i++) { z->transitions_[i].unix_time = unix_times[i]; z->transitions_[i].type_index = types[i]; }
+  z->default_transition_type_ = static_cast<std::uint_least8_t>(dflt);
+  z->abbreviations_.assign(chars, nchars);
+  z->future_spec_.clear(); z->extended_ = false;
+  const cctz::TransitionType* ttp = &z->transition_types_[z->default_transition_type_];
+  for (auto& tr : z->transitions_) {
+    tr.prev_civil_sec = z->LocalTime(tr.unix_time, *ttp).cs - 1;
+    ttp = &z->transition_types_[tr.type_index];
+    tr.civil_sec = z->LocalTime(tr.unix_time, *ttp).cs;
+  }
+  for (auto& tt : z->transition_types_) {
+    tt.civil_max = z->LocalTime(cctz::seconds::max().count(), tt).cs;
+    tt.civil_min = z->LocalTime(cctz::seconds::min().count(), tt).cs;
+  }
+  return z;
+}
 void tzr_free(void* h) { delete static_cast<cctz::TimeZoneInfo*>(h); }
 void tzr_hints(void* h, std::size_t a, std::size_t b) { auto* z = static_cast<cctz::TimeZoneInfo*>(h); z->local_time_hint_.store(a); z->time_local_hint_.store(b); }
 // the zone as ExtendTransitions leaves it: the table's tail is declared to be 401 rule-generated years ending in last_year
